@@ -34,8 +34,13 @@ Definition string_char (s : str) (k : Z) : option Z :=
 Definition substr (s : str) (off n : Z) : str := firstn (Z.to_nat n) (skipn (Z.to_nat off) s).
 
 (* the in-place reversal loop: for (i = 0; i < sl / 2; i++) swap(res[i], res[sl - i - 1]) *)
-Definition set_nth (l : str) (k : Z) (v : Z) : str :=
-  firstn (Z.to_nat k) l ++ v :: skipn (S (Z.to_nat k)) l.
+Fixpoint set_nat (l : str) (k : nat) (v : Z) : str :=
+  match l, k with
+  | [], _ => []
+  | _ :: t, O => v :: t
+  | x :: t, S k' => x :: set_nat t k' v
+  end.
+Definition set_nth (l : str) (k : Z) (v : Z) : str := set_nat l (Z.to_nat k) v.
 
 Fixpoint swap_loop (fuel : nat) (i sl : Z) (l : str) : str :=
   match fuel with
